@@ -5,6 +5,7 @@ import (
 	"go/constant"
 	"go/token"
 	"go/types"
+	"math"
 	"strings"
 
 	"golang.org/x/tools/go/ssa"
@@ -67,13 +68,13 @@ func monoOfCtx(v ssa.Value, ctx dctx, depth int) mono {
 			return mono{combineAdd(a.age, negate(b.age)), combineAdd(a.size, negate(b.size))}
 		case token.MUL, token.QUO:
 			// by a positive constant keeps direction
-			if k, ok := constInt(x.Y); ok && k > 0 {
+			if k, ok := constNum(x.Y); ok && k > 0 {
 				return a
 			}
-			if k, ok := constInt(x.X); ok && k > 0 && x.Op == token.MUL {
+			if k, ok := constNum(x.X); ok && k > 0 && x.Op == token.MUL {
 				return b
 			}
-			if k, ok := constInt(x.Y); ok && k < 0 {
+			if k, ok := constNum(x.Y); ok && k < 0 {
 				return mono{negate(a.age), negate(a.size)}
 			}
 			return mono{'?', '?'}
@@ -141,6 +142,155 @@ func monoOfCtx(v ssa.Value, ctx dctx, depth int) mono {
 		}
 	}
 	return mono{'?', '?'}
+}
+
+// ageRes follows the age term (now − LastAccess, in nanoseconds) through the arithmetic that makes the
+// priority and reports how finely it still distinguishes two ages when it arrives: scale is "value per
+// nanosecond of age", quantum the largest step (in ns of age) that some operation on the way collapsed
+// onto one value — a unit-truncating accessor (Milliseconds, Microseconds), an integer division, a
+// float→integer conversion. what names the operation that set the quantum. ok=false: v carries no age.
+type ageRes struct {
+	scale, quantum float64
+	what           string
+}
+
+func constNum(v ssa.Value) (float64, bool) {
+	v = unconvNum(v)
+	if c, ok := v.(*ssa.Const); ok && c.Value != nil {
+		switch c.Value.Kind() {
+		case constant.Int, constant.Float:
+			f, _ := constant.Float64Val(c.Value)
+			return f, true
+		}
+	}
+	return 0, false
+}
+
+func isIntegerType(t types.Type) bool {
+	b, ok := t.Underlying().(*types.Basic)
+	return ok && b.Info()&types.IsInteger != 0
+}
+
+func isFloatType(t types.Type) bool {
+	b, ok := t.Underlying().(*types.Basic)
+	return ok && b.Info()&types.IsFloat != 0
+}
+
+func (a ageRes) coarsen(step float64, what string) ageRes {
+	if step > a.quantum {
+		a.quantum, a.what = step, what
+	}
+	return a
+}
+
+func ageResOf(v ssa.Value, ctx dctx, depth int) (ageRes, bool) {
+	if depth > 12 {
+		return ageRes{}, false
+	}
+	switch x := v.(type) {
+	case *ssa.ChangeType:
+		return ageResOf(x.X, ctx, depth+1)
+	case *ssa.Convert:
+		a, ok := ageResOf(x.X, ctx, depth+1)
+		if ok && isFloatType(x.X.Type()) && isIntegerType(x.Type()) && a.scale != 0 {
+			a = a.coarsen(1/math.Abs(a.scale), "conversion of a fractional age to an integer")
+		}
+		return a, ok
+	case *ssa.Parameter:
+		if arg, c2, ok := paramArg(x, ctx); ok {
+			return ageResOf(arg, c2, depth+1)
+		}
+	case *ssa.UnOp:
+		if x.Op == token.SUB {
+			return ageResOf(x.X, ctx, depth+1)
+		}
+	case *ssa.BinOp:
+		switch x.Op {
+		case token.ADD, token.SUB:
+			if a, ok := ageResOf(x.X, ctx, depth+1); ok {
+				return a, true
+			}
+			return ageResOf(x.Y, ctx, depth+1)
+		case token.MUL:
+			if k, ok := constNum(x.Y); ok {
+				if a, ok := ageResOf(x.X, ctx, depth+1); ok {
+					a.scale *= k
+					return a, true
+				}
+			}
+			if k, ok := constNum(x.X); ok {
+				if a, ok := ageResOf(x.Y, ctx, depth+1); ok {
+					a.scale *= k
+					return a, true
+				}
+			}
+		case token.QUO:
+			if k, ok := constNum(x.Y); ok && k != 0 {
+				if a, ok := ageResOf(x.X, ctx, depth+1); ok {
+					a.scale /= k
+					if isIntegerType(x.Type()) && a.scale != 0 {
+						a = a.coarsen(1/math.Abs(a.scale), fmt.Sprintf("integer division by %v", k))
+					}
+					return a, true
+				}
+			}
+		}
+	case *ssa.Call:
+		n := calleeName(x)
+		args := callArgs(x)
+		unit := func(ns float64, integer bool) (ageRes, bool) {
+			a, ok := ageResOf(args[0], ctx, depth+1)
+			if !ok {
+				return a, false
+			}
+			a.scale /= ns
+			if integer && a.scale != 0 {
+				a = a.coarsen(1/math.Abs(a.scale), n)
+			}
+			return a, true
+		}
+		switch n {
+		case "(time.Duration).Nanoseconds":
+			return unit(1, true)
+		case "(time.Duration).Microseconds":
+			return unit(1e3, true)
+		case "(time.Duration).Milliseconds":
+			return unit(1e6, true)
+		case "(time.Duration).Seconds":
+			return unit(1e9, false)
+		case "(time.Duration).Minutes":
+			return unit(6e10, false)
+		case "(time.Duration).Hours":
+			return unit(3.6e12, false)
+		case "(time.Time).Sub":
+			if isLastAccessCtx(args[1], ctx) || isLastAccessCtx(args[0], ctx) {
+				return ageRes{scale: 1, quantum: 1}, true
+			}
+		case "time.Since", "time.Until":
+			if isLastAccessCtx(args[0], ctx) {
+				return ageRes{scale: 1, quantum: 1}, true
+			}
+		}
+		if sc := staticCallee(x); sc != nil {
+			g := unwrapSynthetic(sc)
+			if g != nil && g.Blocks != nil && isModPath(originPkgPath(g)) {
+				var res ageRes
+				found := false
+				eachInstr(g, func(in ssa.Instruction) {
+					if ret, ok := in.(*ssa.Return); ok && len(ret.Results) == 1 {
+						if a, ok := ageResOf(ret.Results[0], append(append(dctx{}, ctx...), x), depth+1); ok {
+							if !found || a.quantum > res.quantum {
+								res = a
+							}
+							found = true
+						}
+					}
+				})
+				return res, found
+			}
+		}
+	}
+	return ageRes{}, false
 }
 
 func isLastAccessCtx(v ssa.Value, ctx dctx) bool {
@@ -404,6 +554,13 @@ func checkC13(c *Ctx, r *Report) {
 				found = true
 				m := monoOf(st.Val, 0)
 				r.Check(m.age == '+' && (m.size == '+' || m.size == '0'), "C13.R3", "evict: priority grows with age (and size)", c.InstrPos(st), fmt.Sprintf("monotonicity age=%c size=%c", m.age, m.size), fmt.Sprintf("eviction priority is not non-decreasing in time-since-last-access and size (age=%c size=%c): least-recently-used entries are no longer evicted first", m.age, m.size))
+				if m.age == '+' {
+					// "least recently used first" for every order of access: two entries used at different
+					// instants must get different ages, so the age reaches the priority at the resolution
+					// LastAccess is recorded with (one nanosecond).
+					a, ok := ageResOf(st.Val, nil, 0)
+					r.Check(ok && a.quantum <= 1+1e-9, "C13.R3", "evict: the age enters the priority at full resolution", c.InstrPos(st), fmt.Sprintf("now−LastAccess reaches the priority with a quantum of %gns", a.quantum), fmt.Sprintf("eviction priority collapses ages up to %gns apart onto one value (%s): entries used within that span are evicted in arbitrary order, not least-recently-used first", a.quantum, a.what))
+				}
 			})
 		}
 		r.Check(found, "C13.R3", "evict: priority is computed", c.Pos(f.Pos()), "store into candidate.priority", "no priority is computed for the candidates")
